@@ -6,7 +6,7 @@ ASSUME DispatchConsistent
 GroupOf(c) == CASE c \in StdNoArg -> "stdnoarg" [] c \in StdArg -> "stdarg" [] c = 31 -> "ahc" [] c = 32 -> "slot0"
                 [] c \in {33, 34} -> "slot1" [] c = 35 -> "wait" [] OTHER -> "fwd"
 Groups == [g \in {"stdnoarg", "stdarg", "ahc", "slot0", "slot1", "wait", "fwd"} |-> {c \in AllCodes : GroupOf(c) = g}]
-ASSUME PrintT(<<"GR", ToJson([groups |-> Groups, codes |-> Codes, group_of |-> [c \in Codes |-> GroupOf(c)]])>>)
+ASSUME PrintT(<<"GR", ToJson([groups |-> Groups, resp_sizes |-> RespSizes, codes |-> Codes, group_of |-> [c \in Codes |-> GroupOf(c)]])>>)
 \* every stream of the bounded model (printed once, from its initial state)
 EmitStream == (last.i = 0 /\ status = "running") => PrintT(<<"ST", ToJson(stream)>>)
 \* every labelled step of the wire model (for the count of distinct abstract transitions)
